@@ -64,7 +64,8 @@ func runC22(c *kit.Ctx) {
 	// (the checkpoint-path workload runs first: a shard keeps at most 40 witnesses)
 	c22CheckpointPath(c)
 	c22StateLevel(c)
-	// further workloads (level 2: reorganisations of a full node) go here.
+	// level 2: reorganisations of a full node vs a linear twin (props/c22_l2.go)
+	c22NodeLevel(c)
 }
 
 // ---------- level 1 ----------
